@@ -27,7 +27,14 @@ one() {
 		echo "| $n | patch does not apply | |" >> "$rows"; rm -rf "$p"; return
 	fi
 	local checks row="| $n |"
-	checks=$(python3 -c "import json,sys; print(' '.join(json.load(open(sys.argv[1]))['checks']))" "$d/meta.json")
+	# SEEDED_PRIMARY_ONLY=1: only the check of the property the change was
+	# made against (when it is among the listed checks, else the first one)
+	checks=$(python3 -c "
+import json,sys,os
+m=json.load(open(sys.argv[1])); c=m['checks']
+if os.environ.get('SEEDED_PRIMARY_ONLY') and c:
+    c=[m['property']] if m['property'] in c else c[:1]
+print(' '.join(c))" "$d/meta.json")
 	for c in $checks; do
 		local log="$ROOT/.work/seeded-run/$n.$c.par.log"
 		( cd "$p/verif" && VERIF_REPO="$p/repo" ./verif check "$c" quick ) > "$log" 2>&1
